@@ -58,6 +58,25 @@ def run(ctx):
     never = spec_points - set(s["points"])
     if never and not q:
         raise vlib.Infra("hook/spec step mismatch: spec steps never crashed at: %s" % sorted(never))
+    # several competing candidates per version (pending-root sequence numbers above 0 on pathbadger), crash in the last three steps
+    out2 = ctx.path("crash2.json")
+    scratch2 = ctx.path("crashdbs2")
+    os.makedirs(scratch2)
+    vh2 = vlib.popen_vh(["nodedb-crash", "-in", "-", "-out", out2, "-every", "10" if q else "1", "-last", "3", "-scratch", scratch2])
+    g2 = vlib.run_tlc(ctx, d, "MCNodeDBCrash", "gen_crash2.cfg", timeout=3000, sink=vh2.stdin)
+    vh2.stdin.close()
+    if vh2.wait() != 0:
+        raise vlib.Infra("nodedb-crash failed (candidates)")
+    vlib.tlc_must_pass(ctx, g2, "crash scenario generation (candidates)")
+    s2 = json.load(open(out2))
+    ctx.log("crash (competing candidates): %d scenarios from %d/%d histories; outcomes %s" % (
+        s2["scenarios"], s2["behaviours"], g2.emitted, {k: sum(v for kk, v in s2["outcomes"].items() if kk.startswith(k)) for k in ("pre", "post")}))
+    if s2["infra"] and len(s2["infra"]) > max(3, s2["scenarios"] // 50):
+        raise vlib.Infra("crash children failed: %s" % s2["infra"][:3])
+    if s2["scenarios"] < 50:
+        raise vlib.Infra("too few crash scenarios executed (%d, competing candidates)" % s2["scenarios"])
+    s["fails"] = (s["fails"] or []) + (s2["fails"] or [])
+    s["scenarios"] += s2["scenarios"]
     # fixed corpus (specs/mkvs/corpus): histories whose crash scenarios must run in every tier and with every seed, whatever
     # representative histories TLC happened to pick (its choice among equivalent predecessors varies from run to run).
     # crash_prune_lone: Prune of a version whose roots have no derived roots (IO roots of every runtime round are such roots).
